@@ -161,4 +161,34 @@ def listCall {L A N O : Type} (apply : L → A → Option N → O) (liks : List 
     (noise : Option (List N)) : Option (List O) :=
   (route liks args noise).map fun l => l.map fun x => apply x.1 x.2.1 x.2.2
 
+/-! ### histories on one likelihood object: reading a property is an observation, not an operation -/
+
+/-- One step of a history on a likelihood object with state `σ`: read the public property number `g`, change the state
+through the documented API (`set`), or use the likelihood on the query `q`. -/
+inductive HOp (σ Q : Type) where
+  | read (g : Nat)
+  | set (f : σ → σ)
+  | use (q : Q)
+
+def HOp.isRead {σ Q : Type} : HOp σ Q → Bool
+  | .read _ => true
+  | _ => false
+
+/-- Effect on the state of reading a property whose getter body performs the writes `ws` (the state fields written in
+the getter's source, as listed by the translator): nothing when the getter writes nothing, otherwise some effect `eff`
+about which nothing is known. -/
+def readEffect {σ : Type} (ws : List String) (eff : σ → σ) : σ → σ := if ws.isEmpty then id else eff
+
+/-- Outputs of the uses of a history; `getters` is the table (property name, writes of its getter). -/
+def runHist {σ Q O : Type} (getters : List (String × List String)) (eff : Nat → σ → σ) (out : σ → Q → O) :
+    σ → List (HOp σ Q) → List O
+  | _, [] => []
+  | s, .read g :: h => runHist getters eff out (readEffect ((getters[g]?.map (·.2)).getD []) (eff g) s) h
+  | s, .set f :: h => runHist getters eff out (f s) h
+  | s, .use q :: h => out s q :: runHist getters eff out s h
+
+/-- `noise=[ν₀, None, ν₂]`: an entry of the per-member list is itself optional; the member is called with `noise=entry`,
+and `noise=None` is "no call-time noise". -/
+def memberCall {N : Type} (entry : Option (Option N)) : Option N := entry.join
+
 end Noise
